@@ -428,6 +428,9 @@ func checkC12(P *Prog, r *Result) {
 		}
 	}
 	r.floor("C12/ctx-values-per-call", 2)
+	// own-context-not-shared: the context a callback receives belongs to its node alone: a node context is
+	// released once, deferred or as its last use (C07's release rule restricted to SchemaCtx objects)
+	shareRule(P, r, checkC07, "C07/release", func(o Obligation) bool { return strings.Contains(o.Construct, "SchemaCtx") }, "C12/own-context-not-shared", 10)
 }
 
 // errResultGuardsIssue: the error result (last extract) of call c is compared
